@@ -1,8 +1,10 @@
 #!/bin/sh
-# offline setup: build the extractor and the replay crate (against /repo, hooks on)
+# offline setup: build the extractor and the replay crate (against /repo, hooks on; two profiles)
 set -e
 export CARGO_NET_OFFLINE=true
 cd /verif/tools/extract && cargo build --release --offline
 mkdir -p /verif/build
+cd /verif/replay
 RUSTFLAGS="--cfg rust_ndarray_ndarray_stats_verif" CARGO_TARGET_DIR=/verif/build/replay-target cargo build --release --offline
+RUSTFLAGS="--cfg rust_ndarray_ndarray_stats_verif" CARGO_TARGET_DIR=/verif/build/replay-target cargo build --profile relfast --offline
 echo setup-ok
